@@ -111,3 +111,37 @@ package policy
 //@   loop 0: invariant 0 <= i && i <= listLen(node) && nodeKind(node) == datamodel.Kind_List && len(res) == listLen(node) && fresh(res)
 //@   loop 0: invariant forall j int :: 0 <= j && j < i ==> res[j] != nil && stmtKind(res[j]) == nodeStr(listElem(listElem(node, j), 0))
 //@           decreases listLen(node) - i
+//@
+//@ // ---- statements as finite trees --------------------------------------------------------------------------------
+//@ // wfStmt(s): s is one of the five statement kinds of this package, its nested statements are non-nil and well-formed;
+//@ // stmtSize is a well-founded measure (a statement is larger than its parts).  Statements are immutable values built by
+//@ // the constructors or the decoder, so they form finite trees: the unfolding below is assumed where it is used (`given`).
+//@ ghost func wfStmt(s Statement) bool
+//@ ghost func stmtSize(s Statement) int
+//@ ghost func stmtsSize(s []Statement) int
+//@ pure func wfStmtUnfold(s Statement) bool =
+//@     (s is equality || s is negation || s is connective || s is wildcard || s is quantifier) && 0 <= stmtSize(s)
+//@  && (s is negation ==> s.(negation).statement != nil && wfStmt(s.(negation).statement) && stmtSize(s.(negation).statement) < stmtSize(s))
+//@  && (s is quantifier ==> s.(quantifier).statement != nil && wfStmt(s.(quantifier).statement) && stmtSize(s.(quantifier).statement) < stmtSize(s))
+//@  && (s is connective ==> 0 <= stmtsSize(s.(connective).statements) && stmtsSize(s.(connective).statements) < stmtSize(s))
+//@  && (s is connective ==> (forall j int :: {s.(connective).statements[j]} 0 <= j && j < len(s.(connective).statements) ==> s.(connective).statements[j] != nil && wfStmt(s.(connective).statements[j]) && stmtSize(s.(connective).statements[j]) < stmtsSize(s.(connective).statements)))
+//@
+//@ // ---- C14: writing a policy back: one [op, ...] tuple per statement, carrying the statement's operator -------------
+//@ func (Policy).ToIPLD
+//@   inline
+//@ func statementsToIPLD
+//@   requires 0 <= stmtsSize(statements) && (forall j int :: 0 <= j && j < len(statements) ==> statements[j] != nil && wfStmt(statements[j]) && 0 <= stmtSize(statements[j]) && stmtSize(statements[j]) < stmtsSize(statements))
+//@   use seq_len, seq_empty, seq_snoc, list_of, string_node
+//@   ensures [C14] shape: result1 == nil ==> result0 != nil && nodeKind(result0) == datamodel.Kind_List && listLen(result0) == len(statements) && (forall j int :: 0 <= j && j < len(statements) ==> nodeKind(listElem(result0, j)) == datamodel.Kind_List && nodeStr(listElem(listElem(result0, j), 0)) == stmtKind(statements[j]))
+//@   ensures [C09] total: true
+//@   decreases stmtsSize(statements), 1
+//@   loop 0: invariant 0 <= k && k <= len(statements) && listBuilder != nil && listBuilder == builderList(list) && isListBuilder(list) && seqLen(assembled(listBuilder)) == k
+//@   loop 0: invariant forall j int :: {seqAt(assembled(listBuilder), j)} 0 <= j && j < k ==> nodeKind(seqAt(assembled(listBuilder), j)) == datamodel.Kind_List && nodeStr(listElem(seqAt(assembled(listBuilder), j), 0)) == stmtKind(statements[j])
+//@           decreases len(statements) - k
+//@ func statementToIPLD
+//@   requires statement != nil && wfStmt(statement)
+//@   given forall s Statement :: {wfStmt(s)} wfStmt(s) ==> wfStmtUnfold(s)
+//@   use seq_len, seq_empty, seq_snoc, list_of, string_node
+//@   ensures [C14] shape: result1 == nil ==> result0 != nil && nodeKind(result0) == datamodel.Kind_List && nodeStr(listElem(result0, 0)) == stmtKind(statement) && (listLen(result0) == 2 || listLen(result0) == 3)
+//@   ensures [C09] total: true
+//@   decreases stmtSize(statement), 0
